@@ -104,7 +104,9 @@ CHECKS = {
         "except at S and Z) by exhaustive noise enumeration with the returned event's values and compared with the target "
         "(conditional) probability; Zero() only for impossible events; after validation only a result or None may come back. "
         "Defects inherited from SIMPLIFY / ctf-factor handling are listed with an index of failing inputs. Builder phase: the target "
-        "graph object and one selection-diagram object per domain are grown in place, ctfTRu asked after every insertion.",
+        "graph object and one selection-diagram object per domain are grown in place, ctfTRu asked after every insertion. "
+        "Nested-intervention slice: four-node graphs with a directed path of length two, events with two nested subscripts alone "
+        "and paired with a mediator in a second world.",
         note="Trusted: mc/fscm.py multi-domain family; errors raised by y0's input-validation routines count as refusals.",
         design="4/C09",
     ),
